@@ -474,7 +474,7 @@ fn run_reader(bytes: &[u8], ts: &str, odd: &str, mode: &str, vread: &str, flexib
 }
 
 /// first difference between expected tokens (Layout!Toks) and observed ones
-fn cmp_toks(exp: &[Value], run: &TokRun, exp_end: &str, total: u64, check_pos: bool) -> Option<Value> {
+fn cmp_toks(exp: &[Value], run: &TokRun, exp_end: &str, total: u64, check_pos: bool, check_val: bool) -> Option<Value> {
     for (i, e) in exp.iter().enumerate() {
         let Some(o) = run.toks.get(i) else {
             return Some(json!({"what":"reader stopped early","at":i,"expected":e,"end":run.end,"err":run.err}));
@@ -488,6 +488,16 @@ fn cmp_toks(exp: &[Value], run: &TokRun, exp_end: &str, total: u64, check_pos: b
         }
         if matches!(kind, "EH" | "SS" | "IS" | "IV") && e["len"] != o["len"] {
             return Some(json!({"what":"reported length","at":i,"expected":e,"observed":o}));
+        }
+        if check_val && e["cmp"].as_bool().unwrap_or(false) {
+            let same = match kind {
+                "PV" | "IV" => e["val"] == o["val"],
+                "OT" => e["val"] == o["ot"],
+                _ => true,
+            };
+            if !same {
+                return Some(json!({"what":"value","at":i,"expected":e,"observed":o}));
+            }
         }
         if check_pos {
             if o["pos"] != o["cons"] {
@@ -612,7 +622,7 @@ fn cmd_c07(args: &std::collections::HashMap<String, String>) {
             if exp.len() > 2 {
                 nontrivial += 1;
             }
-            let diff = cmp_toks(exp, &run, exp_end, total, true);
+            let diff = cmp_toks(exp, &run, exp_end, total, true, vread != "Interpreted");
             if let Some(d) = &diff {
                 bad_ids.push(json!(idx));
                 let at = d.get("at").and_then(|x| x.as_u64()).unwrap_or(exp.len() as u64) as usize;
@@ -680,6 +690,299 @@ fn cmd_c07(args: &std::collections::HashMap<String, String>) {
     rep.print();
 }
 
+
+// ------------------------------------------------------------------ C06
+
+fn diff_kind(detail: &str) -> &'static str {
+    if detail.contains("fragments") {
+        "fragments differ"
+    } else if detail.contains("offset table") {
+        "offset table differs"
+    } else if detail.contains("missing") {
+        "element missing"
+    } else if detail.contains("extra") {
+        "unexpected extra element"
+    } else {
+        "element differs"
+    }
+}
+
+/// abstract class of the pixel data of a file: none / native / X[bot|frag,frag..] (+trailing element)
+fn pix_class(ds: &Value) -> String {
+    let mut out = "none".to_string();
+    let els = j_arr(ds);
+    for (i, n) in els.iter().enumerate() {
+        let is_pix = if j_str(&n["k"]) == "X" {
+            let fr: Vec<String> = j_arr(&n["frags"]).iter().map(|f| f["dl"].to_string()).collect();
+            out = if fr.is_empty() { "X[]".into() } else { format!("X[{}|{}]", fr[0], fr[1..].join(",")) };
+            true
+        } else if n["tag"] == json!([32736, 16]) {
+            out = "native".into();
+            true
+        } else {
+            false
+        };
+        if is_pix && i + 1 < els.len() {
+            out.push_str("+trailing");
+        }
+    }
+    out
+}
+
+fn cmd_c06(args: &std::collections::HashMap<String, String>) {
+    let cases = read_ndjson(args.get("cases").expect("--cases"));
+    let out_dir = args.get("out").cloned().expect("--out");
+    std::fs::create_dir_all(&out_dir).unwrap();
+    let selftest = args.get("selftest").cloned().unwrap_or_default();
+    let mut rep = Report::new();
+    let mut cls = Classes::new();
+    let mut meta = Value::Null;
+    let mut preamble = Value::Null;
+    let mut files: std::collections::BTreeMap<u64, &Value> = Default::default();
+    for c in &cases {
+        if c.get("meta").is_some() && c.get("file").is_none() {
+            meta = c["meta"].clone();
+            preamble = c["preamble"].clone();
+        }
+        if c.get("file").is_some() {
+            files.insert(c["fid"].as_u64().unwrap(), c);
+        }
+    }
+    let (mut n_files, mut n_whole, mut n_tok, mut n_stop, mut n_beh, mut n_calls, mut n_fragcalls) = (0usize, 0, 0, 0, 0, 0, 0);
+    let trace_path = format!("{out_dir}/trace_c06.ndjson");
+    let mut tr = NdjsonWriter::create(&trace_path);
+    let mut traced = 0usize;
+
+    // ---- per file: whole-file reads, eager and lazy tokens, stop rules
+    for (fid, f) in &files {
+        n_files += 1;
+        rep.cases += 1;
+        let ts = j_str(&f["ts"]);
+        let big = ts == "EVRBE";
+        let pre = f["pre"].as_bool().unwrap();
+        let ds_bytes = j_bytes(&f["bytes"]);
+        let total = j_usize(&f["total"]) as u64;
+        let pc = pix_class(&f["ds"]);
+        let fb = file_bytes(&meta, ts, if pre { Some(&preamble) } else { None }, &ds_bytes);
+
+        // whole file through from_reader and through open_file (path)
+        let path = format!("{out_dir}/f{fid}.dcm");
+        std::fs::write(&path, &fb).unwrap();
+        for via in ["from_reader", "open_file"] {
+            n_whole += 1;
+            let r = catch(|| {
+                if via == "from_reader" {
+                    dicom_object::from_reader(Cursor::new(fb.clone()))
+                } else {
+                    dicom_object::open_file(&path)
+                }
+            });
+            match r {
+                Err(p) => cls.add(format!("{via}: panic [pixel data: {pc}]"), json!({"fid":fid,"err":p})),
+                Ok(Err(e)) => cls.add(format!("{via}: error on a conforming file [pixel data: {pc}]"), json!({"fid":fid,"ts":ts,"err":format!("{e}"),"ds":f["ds"]})),
+                Ok(Ok(o)) => {
+                    let mut ob = obj_json(&o, big);
+                    if selftest == "whole" && fid % 5 == 0 {
+                        if let Some(a) = ob.as_array_mut() {
+                            a.pop();
+                        }
+                    }
+                    if let Some(d) = cmp_obj(&f["whole"], &ob, "") {
+                        cls.add(format!("{via}: {} [pixel data: {pc}]", diff_kind(&d)),
+                            json!({"fid":fid,"ts":ts,"detail":d,"ds":f["ds"],"observed":ob}));
+                    }
+                    let m = meta_json(o.meta());
+                    if m != f["meta"] {
+                        cls.add(format!("{via}: file meta group differs"), json!({"fid":fid,"ts":ts,"expected":f["meta"],"observed":m}));
+                    }
+                }
+            }
+        }
+        std::fs::remove_file(&path).ok();
+
+        // token readers on the data set
+        for mode in ["eager", "lazy"] {
+            n_tok += 1;
+            let exp = j_arr(&f[mode]);
+            let run = run_reader(&ds_bytes, ts, "Accept", mode, "Preserved", false, exp.len() + 50);
+            if let Some(d) = cmp_toks(exp, &run, "eof", total, true, true) {
+                let at = d.get("at").and_then(|x| x.as_u64()).unwrap_or(exp.len() as u64) as usize;
+                let after = last_header(exp, at);
+                cls.add(format!("{mode} reader: {} after {} [pixel data: {pc}]", j_str(&d["what"]), after_class(&after)),
+                    json!({"fid":fid,"ts":ts,"mode":mode,"diff":d,"ds":f["ds"],"observed":run.toks,"end":run.end,"err":run.err}));
+            }
+            traced += 1;
+            tr.emit(&json!({"ev":"reset","ts":ts,"odd":"Accept","mode":mode,"bytes":f["bytes"],"id":fid}));
+            for t in &run.toks {
+                tr.emit(&json!({"ev":"tok","t":t["t"],"tag":t["tag"],"vr":t["vr"],"len":t["len"],"pos":t["pos"],"cons":t["cons"]}));
+            }
+            tr.emit(&json!({"ev":"end","res":run.end,"cons":run.cons,"pos":run.pos}));
+        }
+
+        // stop rules
+        for (rule, key) in [("read_until", "until"), ("read_to", "to")] {
+            for st in j_arr(&f[key]) {
+                n_stop += 1;
+                let tag = Tag(j_usize(&st["tag"][0]) as u16, j_usize(&st["tag"][1]) as u16);
+                let r = catch(|| {
+                    let o = OpenFileOptions::new();
+                    let o = if rule == "read_until" { o.read_until(tag) } else { o.read_to(tag) };
+                    o.from_reader(Cursor::new(fb.clone()))
+                });
+                match r {
+                    Err(p) => cls.add(format!("{rule}: panic"), json!({"fid":fid,"err":p})),
+                    Ok(Err(e)) => cls.add(format!("{rule}: error on a conforming file [pixel data: {pc}]"), json!({"fid":fid,"ts":ts,"tag":st["tag"],"err":format!("{e}")})),
+                    Ok(Ok(o)) => {
+                        let ob = obj_json(&o, big);
+                        if let Some(d) = cmp_obj(&st["res"], &ob, "") {
+                            cls.add(format!("{rule}: {} [pixel data: {pc}]", diff_kind(&d)),
+                                json!({"fid":fid,"ts":ts,"tag":st["tag"],"detail":d,"ds":f["ds"],"observed":ob}));
+                        }
+                    }
+                }
+            }
+        }
+    }
+
+    // ---- collector behaviours
+    for c in &cases {
+        if c.get("beh").is_none() {
+            continue;
+        }
+        rep.cases += 1;
+        n_beh += 1;
+        let fid = c["fid"].as_u64().unwrap();
+        let f = files.get(&fid).expect("file record of behaviour");
+        let ts = j_str(&f["ts"]);
+        let big = ts == "EVRBE";
+        let pre = f["pre"].as_bool().unwrap();
+        let pc = pix_class(&f["ds"]);
+        let fb = file_bytes(&meta, ts, if pre { Some(&preamble) } else { None }, &j_bytes(&f["bytes"]));
+        let calls = j_arr(&c["calls"]);
+        let mut bot_fetched = false;
+        let mut frag_no = 0usize;
+        let mut history: Vec<String> = Vec::new();
+        let res = catch(|| {
+            let mut col = dicom_object::DicomCollector::new(BufReader::new(Cursor::new(fb.clone())));
+            let mut out: Option<(String, Value)> = None;
+            for (ci, call) in calls.iter().enumerate() {
+                n_calls += 1;
+                let kind = j_str(&call["call"]);
+                let ctxs = format!("[pixel data: {pc}; offset table fetched separately: {bot_fetched}]");
+                let mut fail = |what: String, detail: Value| {
+                    out = Some((what, json!({"fid":fid,"ts":ts,"call_index":ci,"call":call,"detail":detail,"calls_before":history.clone(),"ds":f["ds"]})));
+                };
+                match kind {
+                    "pre" => match col.read_preamble() {
+                        Ok(p) => {
+                            let some = p.is_some();
+                            let b = p.map(|a| bytes_json(&a)).unwrap_or(json!([]));
+                            if call["some"] != json!(some) || call["bytes"] != b {
+                                fail("collector read_preamble: result differs".into(), json!({"some":some}));
+                            }
+                        }
+                        Err(e) => fail("collector read_preamble: error".into(), json!(format!("{e}"))),
+                    },
+                    "meta" => match col.read_file_meta() {
+                        Ok(m) => {
+                            let m = meta_json(m);
+                            if m != call["res"] {
+                                fail("collector read_file_meta: table differs".into(), m);
+                            }
+                        }
+                        Err(e) => fail("collector read_file_meta: error".into(), json!(format!("{e}"))),
+                    },
+                    "upto" | "toend" => {
+                        let mut o = InMemDicomObject::new_empty();
+                        let r = if kind == "upto" {
+                            let t = Tag(j_usize(&call["tag"][0]) as u16, j_usize(&call["tag"][1]) as u16);
+                            col.read_dataset_up_to(t, &mut o)
+                        } else {
+                            col.read_dataset_to_end(&mut o)
+                        };
+                        let name = if kind == "upto" { "read_dataset_up_to" } else { "read_dataset_to_end" };
+                        match r {
+                            Ok(()) => {
+                                let mut ob = obj_json(&o, big);
+                                if selftest == "portion" && fid % 3 == 0 && kind == "toend" {
+                                    if let Some(a) = ob.as_array_mut() {
+                                        a.pop();
+                                    }
+                                }
+                                if let Some(d) = cmp_obj(&call["res"], &ob, "") {
+                                    fail(format!("collector {name}: {} [pixel data: {pc}]", diff_kind(&d)), json!({"detail":d,"observed":ob}));
+                                }
+                            }
+                            Err(e) => fail(format!("collector {name}: error [pixel data: {pc}]"), json!(format!("{e}"))),
+                        }
+                    }
+                    "bot" => {
+                        let mut v = Vec::<u32>::new();
+                        match col.read_basic_offset_table(&mut v) {
+                            Ok(r) => {
+                                let some = r.is_some();
+                                let ok = call["some"] == json!(some)
+                                    && (!some || (call["len"] == json!(r.unwrap()) && call["ot"] == json!(v)));
+                                if !ok {
+                                    fail(format!("collector read_basic_offset_table: result differs [pixel data: {pc}]"), json!({"ret":r,"ot":v}));
+                                }
+                                bot_fetched = true;
+                            }
+                            Err(e) => fail(format!("collector read_basic_offset_table: error [pixel data: {pc}]"), json!(format!("{e}"))),
+                        }
+                    }
+                    "frag" => {
+                        n_fragcalls += 1;
+                        frag_no += 1;
+                        let mut b = Vec::<u8>::new();
+                        match col.read_next_fragment(&mut b) {
+                            Ok(r) => {
+                                let some = r.is_some();
+                                let mut bj = bytes_json(&b);
+                                if selftest == "frag" && some && fid % 4 == 0 {
+                                    bj = json!([9, 9]);
+                                }
+                                let ok = call["some"] == json!(some) && (!some || (call["len"] == json!(r.unwrap()) && call["bytes"] == bj));
+                                if !ok {
+                                    let what = if call["some"] == json!(true) && !some {
+                                        "ends early"
+                                    } else if call["some"] == json!(false) && some {
+                                        "returns data after the last fragment"
+                                    } else {
+                                        "fragment differs"
+                                    };
+                                    fail(format!("collector read_next_fragment #{frag_no}: {what} {ctxs}"), json!({"ret":r,"bytes":bj}));
+                                }
+                            }
+                            Err(e) => fail(format!("collector read_next_fragment #{frag_no}: error {ctxs}"), json!(format!("{e}"))),
+                        }
+                    }
+                    other => panic!("unknown call {other}"),
+                }
+                if out.is_some() {
+                    break;
+                }
+                history.push(kind.to_string());
+            }
+            out
+        });
+        match res {
+            Err(p) => cls.add(format!("collector: panic [pixel data: {pc}]"), json!({"fid":fid,"err":p,"calls":c["calls"]})),
+            Ok(Some((k, ex))) => cls.add(k, ex),
+            Ok(None) => {}
+        }
+    }
+    let events = tr.finish();
+    cls.into_report(&mut rep);
+    for (k, v) in [("files", n_files), ("whole_reads", n_whole), ("token_runs", n_tok), ("stop_rule_reads", n_stop),
+                   ("behaviours", n_beh), ("collector_calls", n_calls), ("fragment_calls", n_fragcalls),
+                   ("traced_cases", traced), ("trace_events", events)] {
+        rep.extra.insert(k.into(), json!(v));
+    }
+    rep.extra.insert("trace_path".into(), json!(trace_path));
+    rep.print();
+}
+
 // ------------------------------------------------------------------ dictionary facts
 
 fn cmd_dict(args: &std::collections::HashMap<String, String>) {
@@ -716,6 +1019,7 @@ fn main() {
     match mode.as_str() {
         "dict" => cmd_dict(&args),
         "c07" => cmd_c07(&args),
+        "c06" => cmd_c06(&args),
         other => {
             eprintln!("unknown mode {other}");
             std::process::exit(2);
